@@ -25,7 +25,7 @@ def configs(n, labels):
         out.append((f"diff(backward={bw})", DiffContrasts(backward=bw), ref.as_float(ref.diff(n, bw)), True))
     out.append(("poly()", PolyContrasts(), ref.poly(n) if n >= 2 else numpy.zeros((n, 0)), True))
     if n >= 2:
-        sc = [float(v) for v in ([1, 2, 4, 7, 11, 16, 22, 29][:n])]
+        sc = [float(1 + k * (k + 1) // 2) for k in range(n)]
         out.append((f"poly(scores={sc})", PolyContrasts(scores=sc), ref.poly(n, sc), True))
     return out
 
@@ -65,7 +65,7 @@ def labels_for(n, ltype):
         return ([1, 0] + list(range(2, n)))[:n] if n >= 2 else [0]
     if ltype == "empty-str":
         return (["b", ""] + [f"c{k}" for k in range(2, n)])[:n] if n >= 2 else [""]
-    return {"str": [f"l{k}" for k in range(n)], "int": list(range(10, 10 + n)), "mixed": [f"{'zyxwvuts'[k]}" for k in range(n)]}[ltype]
+    return {"str": [f"l{k}" for k in range(n)], "int": list(range(10, 10 + n)), "mixed": [chr(ord("z") - k) for k in range(n)]}[ltype]
 
 
 def ground_for(n, tag, ltype):
